@@ -27,6 +27,7 @@ import (
 //   L replayed server-final: the valid one of an EARLIER exchange of the same Auth object (abandoned
 //     by a restart in this session, or completed on a previous connection); G's value if there is none
 //   M server-final with an empty verifier ("v=")
+//   Q server-final that carries the RFC 5802 server-error attribute instead of a signature ("e=invalid-proof")
 //   N server-first of a server that does NOT know the password: right nonce and salt, iteration count 0
 //   P server-first that is fine in every respect but has an iteration count of 10000001 (only in four
 //     fixed sequences: the client really runs ten million PBKDF2 rounds)
@@ -203,7 +204,7 @@ func c15Conn(c *c15Case, seq string, given smtp.Auth, shared *c15Shared) (*c15Re
 				if kind == "client-final" {
 					out.violation = core.V("continued-after-invalid-server-first", "the client sent a client-final message in response to an invalid server-first (%c): %q", sym, resp)
 				}
-			case 'E', 'F', 'G', 'L', 'M', 'O':
+			case 'E', 'F', 'G', 'L', 'M', 'O', 'Q':
 				if kind == "empty" {
 					// the client acknowledged this server-final message
 					if sym == 'E' && cfinOK {
@@ -299,6 +300,8 @@ func c15Conn(c *c15Case, seq string, given smtp.Auth, shared *c15Shared) (*c15Re
 					m.Write([]byte("Server Key"))
 					challenge = "v=" + mac(m.Sum(nil), "")
 				}
+			case 'Q':
+				challenge = "e=invalid-proof" // RFC 5802 server-error: a server-final message WITHOUT a signature
 			case 'M':
 				challenge = "v=" // a server-final message with an EMPTY verifier
 			case 'H':
@@ -442,7 +445,7 @@ func c15Run(c c15Case) []*core.Violation {
 
 func c15Describe() {
 	rec := core.Rec("C15")
-	rec.Rule = "bounded-exhaustive: every server message sequence of length <= 5 (PLUS variants <= 4) in quick and <= 7 (PLUS <= 6) in thorough over the alphabet {A valid server-first, B server-first with a foreign nonce (longer than the combined nonce), C with truncated nonce, D malformed server-first, E valid server-final, F server-final made with another key, G server-final over empty state, H empty challenge, I junk, J 235, K 535, L replayed valid server-final of an earlier exchange of the same Auth object, M server-final with an empty verifier, N server-first with the right nonce and salt but iteration count 0 (a server that does not know the password), O server-final made from an all-zero SaltedPassword over the running exchange}, plus the sequences HP, HPK, HPM, HPO with P = a well-formed server-first whose iteration count is 10000001, for SCRAM-SHA-1, SCRAM-SHA-256 and both PLUS variants (over a real TLS 1.2 handshake on an in-memory connection), driven through smtp.Client.Auth, also with an Auth object that completed a genuine exchange on an earlier connection (reuse, sequences <= 4 / <= 6), and after another Auth value of the same user completed an exchange with a different password against the same salt and iteration count; depth-first with pruning once the client has aborted or the exchange ended. " +
+	rec.Rule = "bounded-exhaustive: every server message sequence of length <= 5 (PLUS variants <= 4) in quick and <= 7 (PLUS <= 6) in thorough over the alphabet {A valid server-first, B server-first with a foreign nonce (longer than the combined nonce), C with truncated nonce, D malformed server-first, E valid server-final, F server-final made with another key, G server-final over empty state, H empty challenge, I junk, J 235, K 535, L replayed valid server-final of an earlier exchange of the same Auth object, M server-final with an empty verifier, Q server-final with the server-error attribute e=... instead of a signature, N server-first with the right nonce and salt but iteration count 0 (a server that does not know the password), O server-final made from an all-zero SaltedPassword over the running exchange}, plus the sequences HP, HPK, HPM, HPO with P = a well-formed server-first whose iteration count is 10000001, for SCRAM-SHA-1, SCRAM-SHA-256 and both PLUS variants (over a real TLS 1.2 handshake on an in-memory connection), driven through smtp.Client.Auth, also with an Auth object that completed a genuine exchange on an earlier connection (reuse, sequences <= 4 / <= 6), and after another Auth value of the same user completed an exchange with a different password against the same salt and iteration count; depth-first with pruning once the client has aborted or the exchange ended. " +
 		"Oracle (reference tracker of the exchange): Auth returns nil only if, since the last client-first, the valid server-first was answered by a verifying client-final and the valid server-final was acknowledged before the 235; the client sends client-final only after a valid server-first and acknowledges a v= message only when it is the valid one; a complete valid exchange succeeds. " +
 		"Non-trivial: the sequence contains a message that is valid for some exchange (A, E, F, G, L or M). Distinct by (mechanism, sequence)."
 	rec.Assumptions = []string{"PBKDF2 iteration count 4 to keep the enumeration cheap", "known finding scram-bare-235: a 235 is accepted whatever preceded it; counted and excluded by signature"}
@@ -460,7 +463,7 @@ func TestC15Enum(t *testing.T) {
 	}
 	c15Describe()
 	p := core.Prop[c15Case]{ID: "C15", Test: "TestC15", Run: c15Run}
-	alphabet := "ABCDEFGHIJKLMNO"
+	alphabet := "ABCDEFGHIJKLMNOQ"
 	type job struct {
 		mech  string
 		max   int
